@@ -16,7 +16,7 @@ tvars == <<vars, l>>
 Ev == TraceLog[l]
 Is(e) == l <= N /\ TraceLog[l].ev = e
 
-IdleCfg == [L |-> 0, lags |-> 0, leads |-> 0, start |-> 0, end |-> 0, min |-> 0, max |-> 0, errors |-> "raise", failures |-> "raise", fault |-> <<>>]
+IdleCfg == [L |-> 0, lags |-> 0, leads |-> 0, start |-> 0, end |-> 0, min |-> 0, max |-> 0, errors |-> "raise", failures |-> "raise", fault |-> <<>>, prior |-> FALSE]
 TraceInit == /\ l = 1 /\ cfg = IdleCfg /\ pc = "idle" /\ todo = <<>> /\ visited = <<>> /\ flags = <<>> /\ per = <<>>
              /\ res = Running /\ sums = <<>>
 
